@@ -151,7 +151,9 @@ def _arm_key(arm: List[ast.stmt], test: ast.expr, extra: int = 0):
 
 
 def _size(block: List[ast.stmt]) -> int:
-    return sum(1 for st in block for _ in ast.walk(st) if isinstance(_, ast.stmt))
+    # a bare `...` statement stands for "many statements" (skeletons of formulint.expect)
+    return sum(1000 if (isinstance(_, ast.Expr) and isinstance(_.value, ast.Constant) and _.value.value is Ellipsis) else 1
+               for st in block for _ in ast.walk(st) if isinstance(_, ast.stmt))
 
 
 def _loads(node: ast.AST, name: str) -> List[ast.Name]:
